@@ -22,6 +22,12 @@ GenNext ==
   \E T \in RandomSubset(1, {X \in XTypes : XMsgs(xst, X) # {}}) :
     LET ms == XMsgs(xst, T)
         good == {m \in ms : XApply(xst, m).ok}
-        pick == IF good # {} /\ RandomElement(1..4) > 1 THEN good ELSE ms
+        \* near misses: a submission that must fail although SOME owner has a usable channel
+        \* on that connection (another account, or another spelling of the same account)
+        near == {m \in ms : m.type = "SubmitTx" /\ ~XApply(xst, m).ok /\
+                            \E k \in xst.chans \cap xst.caps : k.conn = m.conn}
+        r    == RandomElement(1..8)
+        pick == IF near # {} /\ r <= 3 THEN near
+                ELSE IF good # {} /\ r <= 7 THEN good ELSE ms
     IN \E m \in RandomSubset(1, pick) : XStep(m)
 =============================================================================
